@@ -425,10 +425,11 @@ pub fn render(m: &ModCtx, inf: &Infer, d: &Deferred) -> R<String> {
             let (s, w) = sw(ty)?;
             let p = if s { "i" } else { "u" };
             match name.as_str() {
-                "min" | "max" => format!("({} {} {})", name, a, b),
+                "min" => format!("(Min.min {} {})", a, b),
+                "max" => format!("(Max.max {} {})", a, b),
                 "wrapping_add" | "wrapping_sub" | "wrapping_mul" | "checked_add" | "checked_sub" | "checked_mul"
                 | "saturating_add" | "saturating_sub" | "saturating_mul" => format!("(RsSem.{}_{} {} {} {})", p, name, w, a, b),
-                "cmp" => format!("(compare {} {})", a, b),
+                "cmp" => format!("(Ord.compare {} {})", a, b),
                 o => return Err(format!("integer method {}", o)),
             }
         }
